@@ -440,7 +440,10 @@ theorem once_idleGo {v : Variant} {s : St} (h : Once s) (t c : Nat) (rest : List
   refine once_of_shrinks h ⟨rfl, fun _ => rfl, fun _ => rfl, fun d u => ?_⟩
   simp only [setProg_prog]
   split
-  · exact Nat.zero_le _
+  · rename_i hu
+    rw [toks_append, hu]
+    have : toks d [Instr.idleRunSel c, Instr.idleDoneW c, Instr.idleRunClose c] = 0 := rfl
+    rw [this]; exact Nat.le_refl _
   · split
     · rename_i hu; rw [hu, hs, toks_cons]; exact Nat.le_add_right _ _
     · exact Nat.le_refl _
